@@ -158,6 +158,14 @@ func (node *PFCPNode) NewPFCPConn(lAddr, rAddr string, buf []byte) *PFCPConn {
 	if buf != nil {
 		// TODO: Check if the first msg is Association Setup Request
 		p.HandlePFCPMsg(buf)
+
+		select {
+		case <-p.shutdown:
+			// the first message already ended the connection (e.g. Association Release Request),
+			// it must not be remembered: the peer could not connect again
+			return nil
+		default:
+		}
 	}
 
 	// Update map of connections
